@@ -220,6 +220,13 @@ func runC11(e *Engine, r *Report, tier string) {
 					if f.Name() == n {
 						return true
 					}
+					// the reference-count helpers are recognised by what they do, not by their names
+					if n == "decrementReferenceCount" && refCountDelta(f) == -1 {
+						return true
+					}
+					if n == "incrementReferenceCount" && refCountDelta(f) == 1 {
+						return true
+					}
 				}
 				return false
 			})
@@ -302,12 +309,9 @@ func runC11(e *Engine, r *Report, tier string) {
 		var incRef ssa.CallInstruction
 		allCalls(fn, func(c ssa.CallInstruction) {
 			for _, f := range e.calleesOf(c) {
-				if f.Name() == "incrementReferenceCount" {
+				if refCountDelta(f) == 1 {
 					incRef = c
 				}
-			}
-			if callName(c) == "incrementReferenceCount" {
-				incRef = c
 			}
 		})
 		if incRef == nil {
